@@ -94,3 +94,17 @@ func init() {
 		}, stubCommon...),
 	}
 }
+
+func init() {
+	cfgs["C11"] = &propCfg{
+		Workers: map[string]int{"pristine": 11, "instr": 5},
+		QuickS:  30, ThorS: 600,
+		Real: []string{"TsigGenerate / TsigGenerateWithProvider, TsigVerify / TsigVerifyWithProvider, tsigBuffer, stripTsig, tsigHMACProvider, tsigSecretProvider", "Client.ExchangeWithConn + Conn.WriteMsg/ReadMsg session state (tsigRequestMAC)", "Server + response.WriteMsg/TsigStatus session state", "Msg.SetTsig, Msg.Pack/Unpack", "(chains through Transfer.In/Out: exercised under C15 with the same oracle)"},
+		Stub: append([]string{"the on-path attacker: a harness middlebox with its own frame parser", "bare-API runs have no transport: signer and verifier are two steps of one task under the fake clock"}, stubCommon...),
+		Rule: "A run is either a 'bare' scenario (a chain of 1..8 generated messages signed with TsigGenerate under one of five HMAC algorithms with mixed-case names, with or without an initial request MAC, timers-only from the second message, signer clock skew; then 1..6 deliveries, each with a fault - bit flip in one of 15 named regions of the signed octets, un-sign, duplicated TSIG, truncation - or a wrong verifier argument - request MAC none/other/stale, timers-only flipped, other secret - and a verification instant now / fudge-1 / fudge / fudge+1 / far) or a 'session' scenario (1..4 exchanges of the real Client against the real Server over a simulated stream through a middlebox that flips bits by region, un-signs, re-signs with another key, duplicates and delays across the fudge boundary; connection reuse; server with the right key, another key or none). Non-trivial = at least one verification was judged. Distinct = distinct outcome-log digest (bare) / trace digest (session).",
+		Assume: append([]string{
+			"oracle/tsig.go is the reference: an independent implementation of the RFC 8945 digest and time window (cross-checked against the library on the happy path by a unit test in sim/oracle)",
+			"not judged: alterations confined to octets RFC 8945 does not put under the MAC (TSIG CLASS/TTL/RDLENGTH/inner lengths; error and other-data of timers-only envelopes), non-canonical key-name case, truncated MACs, RCODE NOTAUTH, an unsigned reply to a signed query",
+		}, stubCommon...),
+	}
+}
